@@ -19,5 +19,5 @@ func TestMain(m *testing.M) {
 func TestHelperBookmarks(t *testing.T) {}
 
 func TestS1(t *testing.T) {
-	hk.RunSub(t, hk.Sub[Plan]{Name: "s1/bookmarks", Quick: 1500, Thorough: 15000, Gen: Gen, Run: Run, Journal: true})
+	hk.RunSub(t, hk.Sub[Plan]{Name: "s1/bookmarks", Quick: 4000, Thorough: 20000, Gen: Gen, Run: Run, Journal: true})
 }
